@@ -15,6 +15,7 @@ import shutil
 
 from cbimon import cbi, cli
 from cbimon.gen import forest
+from cbimon.oracles import gcc
 from cbimon.props import c10
 
 PROP = "C15"
@@ -37,7 +38,8 @@ def required_cells(tier):
     return ["alias:compiled-through-file-link", "alias:-I-through-dir-link", "alias:dot-segments-file", "alias:dot-segments-I",
             "alias:include-through-file-link", "alias:once-header-under-two-names", "alias:forced-include",
             "link:unused-to-member", "link:to-outside", "link:to-excluded-member", "names-differing-in-case", "link:extension-of-another-language", "link:to-sibling-with-root-prefix", "alias:root-directory-through-link",
-            "alias:dotdot-after-directory-link", "alias:once-header-forced-twice", "same-file-from-2-commands", "one-tree-per-inode", "cli:tree-links", "overlapping-directories"]
+            "alias:dotdot-after-directory-link", "alias:once-header-forced-twice", "same-file-from-2-commands", "one-tree-per-inode", "cli:tree-links", "overlapping-directories", "alias:linked-translation-unit-named-by-bare-relative-name",
+            "alias:search-directory-named-by-I-with-redundant-segments-and-by-isystem"]
 
 
 def dots(rng, rel):
@@ -342,9 +344,103 @@ def classify(problems, ac, cells):
     return None
 
 
+def spelling_scenarios(ctx, base):
+    """Two fixed scenarios about spellings that the random decoration does not produce:
+      N  a translation unit that is a symbolic link, named by a BARE relative name (the process stands in the link's
+         directory) or by its absolute path: its quote includes are looked up beside the link either way (gcc agrees);
+      D  one search directory named by -I with redundant segments (./inc, inc/, other/../inc, inc/.) and plainly by
+         -isystem: it is the same directory, searched in its -isystem position, exactly as with the canonical spelling."""
+    import json
+    from codebasin import CodeBase, config, finder
+    acc = ctx.acc
+    d = os.path.join(base, "spell")
+    shutil.rmtree(d, ignore_errors=True)
+    # ---- N
+    for sub in ("work", "real"):
+        os.makedirs(os.path.join(d, "N", sub))
+    rootn = os.path.realpath(os.path.join(d, "N"))
+    files = {"real/main.c": "#include \"x.h\"\nint m;\n#ifdef X_WORK\nint w;\n#endif\n#ifdef X_REAL\nint r;\n#endif\n",
+             "work/x.h": "#define X_WORK 1\nint xw;\n", "real/x.h": "#define X_REAL 1\nint xr1;\nint xr2;\n"}
+    for rel, text in files.items():
+        with open(os.path.join(rootn, rel), "w") as f:
+            f.write(text)
+    os.symlink("../real/main.c", os.path.join(rootn, "work", "link.c"))
+    g = gcc.preprocess(os.path.join(rootn, "work", "link.c"), cwd=os.path.join(rootn, "work"))
+    results = {}
+    old = os.getcwd()
+    try:
+        for name, cwd, spelled in (("absolute", rootn, os.path.join(rootn, "work", "link.c")), ("bare-name", os.path.join(rootn, "work"), "link.c"),
+                                   ("relative", rootn, "work/link.c"), ("dot-relative", os.path.join(rootn, "work"), "./link.c")):
+            os.chdir(cwd)
+            try:
+                cb = CodeBase(rootn)
+                st = finder.find(rootn, cb, {"p": [{"file": spelled, "defines": [], "include_paths": [], "include_files": []}]}, show_progress=False)
+                acc.hook("find")
+                res = {}
+                for rel in files:
+                    p_ = os.path.join(rootn, rel)
+                    res[rel] = sorted(cbi.used_lines(st, p_, "p")) if st.get_tree(p_) is not None else None
+                results[name] = res
+            except Exception as e:
+                results[name] = f"{type(e).__name__}: {e}"
+    finally:
+        os.chdir(old)
+    problems = []
+    want_work = "int xw;" in g["stdout"]
+    for name, res in results.items():
+        if res != results["absolute"]:
+            problems.append({"kind": "attribution depends on how the linked translation unit is spelled", "spelling": name,
+                             "absolute": results["absolute"], "this": res})
+    if isinstance(results["absolute"], dict) and want_work != bool(results["absolute"].get("work/x.h")):
+        problems.append({"kind": "quote include of a linked translation unit differs from gcc", "gcc_reads_work_x_h": want_work, "observed": results["absolute"]})
+    cells = {"alias:linked-translation-unit-named-by-bare-relative-name"}
+    if problems:
+        acc.violated({"input": {"scenario": "spelling-N"}, "witness": {"files": files, "link": "work/link.c -> ../real/main.c", "problems": problems[:3]}}, cells=cells, cls="S")
+    else:
+        acc.held(cells=cells, cls="S", nontrivial={"scenario": "spelling-N"})
+    # ---- D
+    rootd = os.path.realpath(os.path.join(d, "D"))
+    for sub in ("inc", "other", "src"):
+        os.makedirs(os.path.join(rootd, sub))
+    filesd = {"inc/x.h": "#define FROM_INC 1\nint xi;\n", "other/x.h": "#define FROM_OTHER 1\nint xo1;\nint xo2;\n",
+              "src/t.c": "#include <x.h>\nint t;\n#ifdef FROM_INC\nint fi;\n#endif\n#ifdef FROM_OTHER\nint fo;\n#endif\n"}
+    for rel, text in filesd.items():
+        with open(os.path.join(rootd, rel), "w") as f:
+            f.write(text)
+    outcomes = {}
+    for sp in ("inc", "./inc", "inc/", "other/../inc", "inc/.", "inc//", "./inc/./"):
+        for sysp in ("inc", "inc/"):
+            argv = ["gcc", "-I", sp, "-I", "other", "-isystem", sysp, "-c", "src/t.c"]
+            gg = gcc.preprocess(os.path.join(rootd, "src", "t.c"), extra=argv[1:-2], cwd=rootd)
+            with open(os.path.join(rootd, "db.json"), "w") as f:
+                json.dump([{"file": "src/t.c", "directory": rootd, "arguments": argv}], f)
+            try:
+                conf = config.load_database(os.path.join(rootd, "db.json"), rootd)
+                st, _ = cbi.run_find(rootd, {"p": conf})
+                acc.hook("find")
+                res = {rel: sorted(cbi.used_lines(st, os.path.join(rootd, rel), "p")) for rel in filesd}
+            except Exception as e:
+                res = f"{type(e).__name__}: {e}"
+            outcomes[f"-I {sp} -isystem {sysp}"] = (res, "int xo1;" in gg["stdout"], gg["ok"])
+    problems = []
+    canon = outcomes["-I inc -isystem inc"][0]
+    for k, (res, gcc_other, gok) in outcomes.items():
+        if res != canon:
+            problems.append({"kind": "attribution depends on how the doubly named search directory is spelled", "spelling": k, "canonical": canon, "this": res})
+        elif gok and isinstance(res, dict) and gcc_other != bool(res.get("other/x.h")):
+            problems.append({"kind": "doubly named search directory: differs from gcc", "spelling": k, "gcc_reads_other_x_h": gcc_other, "observed": res})
+    cells = {"alias:search-directory-named-by-I-with-redundant-segments-and-by-isystem"}
+    if problems:
+        acc.violated({"input": {"scenario": "spelling-D"}, "witness": {"files": filesd, "problems": problems[:3]}}, cells=cells, cls="S")
+    else:
+        acc.held(cells=cells, cls="S", nontrivial={"scenario": "spelling-D"})
+
+
 def run_shard(ctx):
     b = bounds(ctx.tier)
     base = os.path.join(ctx.scratch, "c15")
+    if ctx.shard == 1 % ctx.nshards:
+        spelling_scenarios(ctx, base + "-spell")
     rng = ctx.rng("cases")
     for i in range(b["cases"]):
         case = forest.gen(rng, n_tus=rng.randint(1, 4), findable=True, casepair=(i % 3 == 0))
